@@ -328,6 +328,10 @@ def step (s : St) (e : Ev) : Option (St × Obs) :=
         if !sendOk then
           -- `stream.send` failed: the op tuple in hand is dropped with everything else
           some (endDriver { s1 with ops := dropSender s1.ops i } .endedErr, .none)
+        else if s.sinkClosed then
+          -- after Unbind the sink is closed (`self.stream.close()`): no later write can succeed, so a request the
+          -- driver takes from the queue then can only fail its send and end the connection (branch above)
+          none
         else
           let s2 := { s1 with wire := s1.wire ++ [(o.id, o.kind)] }
           match o.kind with
